@@ -390,7 +390,9 @@ fn c15_format_case(rep: &mut Report, fmt: &str, nargs: usize) {
 
 /// random nested value expression, depth-bounded
 fn value_expr(rng: &mut Rng, depth: u32) -> AST {
-    const NAMES: [&str; 14] = ["a", "ab", "abc", "b", "B", "A", "_a", "a_", "a1", "a10", "a2", "z", "Z", "aB"];
+    const NAMES: [&str; 22] = [
+        "a", "ab", "abc", "b", "B", "A", "_a", "a_", "a1", "a10", "a2", "z", "Z", "aB", "abcd", "alpha", "zeta", "a_rather_long_field_name", "Zz", "aaaa", "aaab", "b0000",
+    ];
     if depth == 0 || rng.chance(1, 4) {
         return match rng.below(4) {
             0 => AST::Null,
@@ -636,12 +638,12 @@ impl<'r> ShGen<'r> {
                 Sh::Bin(op, Box::new(l), Box::new(r))
             }
             2 => {
-                let n = self.rng.below(5);
-                let a = (0..n).map(|_| self.operand(Kind::Int, d)).collect();
+                let n = *self.rng.pick(&[0usize, 1, 2, 3, 4, 5, 9, 10, 12]);
+                let a = (0..n).map(|_| self.operand(Kind::Int, if n > 5 { d.min(1) } else { d })).collect();
                 Sh::Call(a)
             }
             3 => {
-                let n = self.rng.below(4);
+                let n = *self.rng.pick(&[0usize, 1, 2, 3, 9, 11]);
                 let o = self.operand(Kind::Obj, d);
                 let a = (0..n).map(|_| self.operand(Kind::Int, d)).collect();
                 Sh::Method(Box::new(o), a)
@@ -676,7 +678,7 @@ impl<'r> ShGen<'r> {
             }
             10 => Sh::FieldGet(Box::new(self.operand(Kind::Obj, d))),
             11 => {
-                let n = self.rng.below(5);
+                let n = *self.rng.pick(&[0usize, 1, 2, 3, 4, 9, 12]);
                 let a = (0..n).map(|_| { let kk = *self.rng.pick(&[Kind::Int, Kind::Arr, Kind::True]); self.operand(kk, d) }).collect();
                 Sh::Print(a)
             }
@@ -877,11 +879,16 @@ function id2(a, b) -> a;
 function id3(a, b, c) -> a;
 function id4(a, b, c, d) -> a;
 function id5(a, b, c, d, e) -> a;
+function id9(a, b, c, d, e, f, g, h, i) -> a;
+function id10(a, b, c, d, e, f, g, h, i, j) -> begin print(\"[~~~]\", h, i, j); a end;
+function id12(a, b, c, d, e, f, g, h, i, j, k, l) -> begin print(\"[~~~~]\", i, j, k, l); a end;
 let cnt = 0;
 let gv = 0;
 let garr = array(3, 5);
 let gobj = object begin let fld = 1;
   function m0() -> 10; function m1(a) -> a; function m2(a, b) -> b; function m3(a, b, c) -> c;
+  function m9(a, b, c, d, e, f, g, h, i) -> begin print(\"[~~~]\", a, h, i); i end;
+  function m11(a, b, c, d, e, f, g, h, i, j, k) -> begin print(\"[~~~]\", i, j, k); k end;
   function get(i) -> i; function set(i, v) -> v; end;
 ";
 
